@@ -27,6 +27,76 @@ type op struct {
 	V int    `json:"v"`
 	E int    `json:"e"` // element handle id (>= 0) or -(l+1) for the sentinel of list l
 	M int    `json:"m"`
+	// K == "Iter": one of the iteration methods of list L with a scripted callback
+	Rev    bool    `json:"rev,omitempty"`    // ForEachReverse / RangeReverse
+	FE     bool    `json:"fe,omitempty"`     // ForEach kinds (the callback may abort with an error); else Range kinds
+	Script []cbact `json:"script,omitempty"` // what the callback does at its visit 0, 1, 2, ... (nothing afterwards)
+}
+
+// rel names a handle from inside a callback: the visited element, its Next(), its Prev(), or a fixed handle id.
+type rel struct {
+	K string `json:"k"` // cur | nxt | prv | abs
+	P int    `json:"p,omitempty"`
+}
+
+// cbact is what the scripted callback does at one visit: nothing, abort (return an error), or one call.
+type cbact struct {
+	A string `json:"a"`           // nop | abort | panic | push | remove | insert | moveend | move | pushlist | init
+	B bool   `json:"b,omitempty"` // push/moveend/pushlist: back (else front); insert/move: after (else before)
+	L int    `json:"l"`
+	V int    `json:"v,omitempty"`
+	R rel    `json:"r"`
+	M rel    `json:"m"`
+	O int    `json:"o,omitempty"`
+}
+
+func (r rel) coq() string {
+	switch r.K {
+	case "cur":
+		return "Cur"
+	case "nxt":
+		return "Nxt"
+	case "prv":
+		return "Prv"
+	}
+	return "(Abs " + ptrCoq(r.P) + ")"
+}
+
+func (a cbact) coq() string {
+	switch a.A {
+	case "nop":
+		return "CNop"
+	case "abort":
+		return "CAbort"
+	case "panic":
+		return "CPanic"
+	case "push":
+		return fmt.Sprintf("(CPush %s %d%%nat %s)", vx.Bool(a.B), a.L, vx.Z(int64(a.V)))
+	case "remove":
+		return fmt.Sprintf("(CRemove %d%%nat %s)", a.L, a.R.coq())
+	case "insert":
+		return fmt.Sprintf("(CInsert %s %d%%nat %s %s)", vx.Bool(a.B), a.L, vx.Z(int64(a.V)), a.R.coq())
+	case "moveend":
+		return fmt.Sprintf("(CMoveEnd %s %d%%nat %s)", vx.Bool(a.B), a.L, a.R.coq())
+	case "move":
+		return fmt.Sprintf("(CMove %s %d%%nat %s %s)", vx.Bool(a.B), a.L, a.R.coq(), a.M.coq())
+	case "pushlist":
+		return fmt.Sprintf("(CPushList %s %d%%nat %d%%nat)", vx.Bool(a.B), a.L, a.O)
+	case "init":
+		return fmt.Sprintf("(CInit %d%%nat)", a.L)
+	}
+	panic("bad callback action " + a.A)
+}
+
+// writes reports whether the action calls a mutating method (of list a.L)
+func (a cbact) writes() bool { return a.A != "nop" && a.A != "abort" && a.A != "panic" }
+
+// callCoq: the history entry (Corr.call): an ordinary call or an iteration with its script
+func (o op) callCoq() string {
+	if o.K == "Iter" {
+		return fmt.Sprintf("Iter %d%%nat %s %s %s", o.L, vx.Bool(o.Rev), vx.Bool(o.FE), vx.ListOf(o.Script, cbact.coq))
+	}
+	return "Call (" + o.coq() + ")"
 }
 
 func ptrCoq(id int) string {
@@ -73,6 +143,9 @@ type tracker struct {
 	hs    []H
 	roots map[int]H
 	errs  []string
+	// set by a scripted callback: the walk did not end within the bound / the visited element could not be
+	// told from its value / a whole-list push inside a callback created elements that could not be found
+	runaway, ambiguous, cbUndisc bool
 }
 
 func newTracker(w W, nl int) *tracker {
@@ -147,6 +220,20 @@ func (t *tracker) newHandleOut(h H) string {
 // apply runs one call; "undiscoverable" means the elements created by a whole-list push could not be
 // found again through Back/Prev resp. Front/Next (only possible in post-Init zombie states).
 func (t *tracker) apply(o op) (out string, undiscoverable bool) {
+	var e, m H
+	switch o.K {
+	case "Remove", "MoveToFront", "MoveToBack":
+		e = t.raw(o.E)
+	case "InsertBefore", "InsertAfter":
+		m = t.raw(o.M)
+	case "MoveBefore", "MoveAfter":
+		e, m = t.raw(o.E), t.raw(o.M)
+	}
+	return t.applyRaw(o, e, m)
+}
+
+// applyRaw: the call o with its handle arguments given as raw handles (e = element, m = mark / position)
+func (t *tracker) applyRaw(o op, e, m H) (out string, undiscoverable bool) {
 	w := t.w
 	switch o.K {
 	case "Init":
@@ -159,19 +246,19 @@ func (t *tracker) apply(o op) (out string, undiscoverable bool) {
 	case "PushBack":
 		return t.newHandleOut(w.PushBack(o.L, o.V)), false
 	case "Remove":
-		return "OVal " + vx.Z(int64(w.Remove(o.L, t.raw(o.E)))), false
+		return "OVal " + vx.Z(int64(w.Remove(o.L, e))), false
 	case "InsertBefore":
-		return t.newHandleOut(w.InsertBefore(o.L, o.V, t.raw(o.M))), false
+		return t.newHandleOut(w.InsertBefore(o.L, o.V, m)), false
 	case "InsertAfter":
-		return t.newHandleOut(w.InsertAfter(o.L, o.V, t.raw(o.M))), false
+		return t.newHandleOut(w.InsertAfter(o.L, o.V, m)), false
 	case "MoveToFront":
-		w.MoveToFront(o.L, t.raw(o.E))
+		w.MoveToFront(o.L, e)
 	case "MoveToBack":
-		w.MoveToBack(o.L, t.raw(o.E))
+		w.MoveToBack(o.L, e)
 	case "MoveBefore":
-		w.MoveBefore(o.L, t.raw(o.E), t.raw(o.M))
+		w.MoveBefore(o.L, e, m)
 	case "MoveAfter":
-		w.MoveAfter(o.L, t.raw(o.E), t.raw(o.M))
+		w.MoveAfter(o.L, e, m)
 	case "PushBackList", "PushFrontList":
 		n := w.Len(o.O)
 		var cur H
@@ -198,10 +285,127 @@ func (t *tracker) apply(o op) (out string, undiscoverable bool) {
 		for i := len(found) - 1; i >= 0; i-- {
 			t.reg(found[i])
 		}
+	case "Iter":
+		return t.iter(o), t.cbUndisc
 	default:
 		panic("bad op " + o.K)
 	}
 	return "ONone", false
+}
+
+type runawayWalk struct{}
+
+// resolve turns a relative handle into a raw one (nil, false = the callback has nothing to act on: Next()/Prev() is nil)
+func (t *tracker) resolve(r rel, cur func() H) (H, bool) {
+	switch r.K {
+	case "abs":
+		h := t.raw(r.P)
+		return h, h != nil
+	case "cur":
+		c := cur()
+		return c, c != nil
+	case "nxt", "prv":
+		c := cur()
+		if c == nil {
+			return nil, false
+		}
+		var n H
+		if r.K == "nxt" {
+			n = t.w.Next(c)
+		} else {
+			n = t.w.Prev(c)
+		}
+		if n == nil {
+			return nil, false
+		}
+		if !t.known(n) {
+			t.errf("Next/Prev inside a callback returned an unknown pointer")
+			return nil, false
+		}
+		return n, true
+	}
+	panic("bad rel " + r.K)
+}
+
+// iter runs one iteration method with the scripted callback; the result is the visit log and whether the
+// iteration was aborted. The callback's own calls go through apply (so new elements get their ids in creation order).
+func (t *tracker) iter(o op) string {
+	visited := []int{}
+	bound := len(t.hs) + 4*len(o.Script) + 24
+	t.runaway, t.ambiguous, t.cbUndisc = false, false, false
+	aborted, why := t.w.Iter(o.L, o.Rev, o.FE, func(v int, exact H) bool {
+		j := len(visited)
+		visited = append(visited, v)
+		if j > bound {
+			t.runaway = true
+			panic(runawayWalk{})
+		}
+		if j >= len(o.Script) {
+			return false
+		}
+		a := o.Script[j]
+		if a.A == "abort" {
+			return true // (Range kinds ignore it)
+		}
+		if a.A == "nop" {
+			return false
+		}
+		if a.A == "panic" {
+			panic("scripted panic of the callback")
+		}
+		cur := func() H { // the visited element: the reference loop knows it, ds passes only the value
+			var found H
+			n := 0
+			for _, h := range t.hs {
+				if t.w.Value(h) == v {
+					found = h
+					n++
+				}
+			}
+			if n != 1 || (exact != nil && t.w.Key(exact) != t.w.Key(found)) {
+				t.ambiguous = true
+				return nil
+			}
+			return found
+		}
+		c := op{L: a.L, V: a.V, O: a.O}
+		var h1, h2 H
+		ok1, ok2 := true, true
+		switch a.A {
+		case "push":
+			c.K = map[bool]string{true: "PushBack", false: "PushFront"}[a.B]
+		case "remove":
+			c.K = "Remove"
+			h1, ok1 = t.resolve(a.R, cur)
+		case "insert":
+			c.K = map[bool]string{true: "InsertAfter", false: "InsertBefore"}[a.B]
+			h2, ok2 = t.resolve(a.R, cur)
+		case "moveend":
+			c.K = map[bool]string{true: "MoveToBack", false: "MoveToFront"}[a.B]
+			h1, ok1 = t.resolve(a.R, cur)
+		case "move":
+			c.K = map[bool]string{true: "MoveAfter", false: "MoveBefore"}[a.B]
+			h1, ok1 = t.resolve(a.R, cur)
+			h2, ok2 = t.resolve(a.M, cur)
+		case "pushlist":
+			c.K = map[bool]string{true: "PushBackList", false: "PushFrontList"}[a.B]
+		case "init":
+			c.K = "Init"
+		default:
+			panic("bad callback action " + a.A)
+		}
+		if !ok1 || !ok2 || t.ambiguous {
+			return false
+		}
+		if _, und := t.applyRaw(c, h1, h2); und {
+			t.cbUndisc = true
+		}
+		return false
+	})
+	if why != "" {
+		t.errf("%s", why)
+	}
+	return fmt.Sprintf("CIter %s %s", intsCoq(visited), vx.Bool(aborted))
 }
 
 type lobs struct {
@@ -303,9 +507,18 @@ type stepRes struct {
 func (t *tracker) step(o op) stepRes {
 	var r stepRes
 	var und bool
+	t.runaway, t.ambiguous = false, false
 	r.Kind = guarded(func() { r.Out, und = t.apply(o) })
-	if r.Kind == "ok" && und {
+	switch {
+	case t.runaway:
+		r.Kind = "cyclic" // the walk went on beyond every bound (only possible in post-Init zombie states)
+	case r.Kind == "ok" && t.ambiguous:
+		r.Kind = "ambiguous" // the visited element could not be told from its value (duplicate values)
+	case r.Kind == "ok" && und:
 		r.Kind = "undiscoverable"
+	}
+	if o.K != "Iter" {
+		r.Out = "COut (" + r.Out + ")"
 	}
 	if r.Kind == "ok" {
 		k := guarded(func() { r.Obs = t.observe() })
@@ -329,9 +542,10 @@ type stepRec struct {
 }
 
 type runResult struct {
-	Steps []stepRec
-	Fail  string // Go-side oracle: the ds flavours differ from container/list
-	End   string // why the history ended early (panic, cyclic, ...)
+	Steps  []stepRec
+	Fail   string // Go-side oracle: the ds flavours differ from container/list
+	End    string // why the history ended early (panic, cyclic, ...)
+	WithTS bool   // the thread-safe flavour took part (not in histories whose callbacks write the iterated list)
 }
 
 type chooser func(step int, ref *stepRes, alloc int, leaked []int) (op, bool)
@@ -340,7 +554,7 @@ func sameRes(a, b stepRes) string {
 	if a.Kind != b.Kind {
 		return fmt.Sprintf("outcome %s vs %s", a.Kind, b.Kind)
 	}
-	if a.Kind == "panic" || a.Kind == "undiscoverable" || a.Kind == "cyclic" {
+	if a.Kind == "panic" || a.Kind == "undiscoverable" || a.Kind == "cyclic" || a.Kind == "ambiguous" {
 		return ""
 	}
 	if a.Out != b.Out {
@@ -352,16 +566,44 @@ func sameRes(a, b stepRes) string {
 	return ""
 }
 
-func lockstep(nl int, next chooser) runResult {
+// usable: after the history every list of the world must still take a mutating call and a read (a method that
+// returned - normally, with an error, or by a panic out of a callback - must not keep the lock it took)
+func usable(t *tracker, nl int) string {
+	for l := 0; l < nl; l++ {
+		var n1, n2, n3 int
+		k := guarded(func() {
+			n1 = t.w.Len(l)
+			h := t.w.PushBack(l, 0)
+			n2 = t.w.Len(l)
+			t.w.Remove(l, h)
+			n3 = t.w.Len(l)
+		})
+		if k == "hang" {
+			return fmt.Sprintf("%s: list %d is not usable after the history (a lock was kept): Len/PushBack/Remove did not return", t.w.Name(), l)
+		}
+		if k == "ok" && (n2 != n1+1 || n3 != n1) {
+			return fmt.Sprintf("%s: list %d after the history: Len %d, after PushBack %d, after Remove %d", t.w.Name(), l, n1, n2, n3)
+		}
+	}
+	return ""
+}
+
+func lockstep(nl int, next chooser, withTS bool) (rr runResult) {
 	plain := newTracker(newDsWorld(nl, true), nl)
 	ts := newTracker(newDsWorld(nl, false), nl)
 	ref := newTracker(newClWorld(nl), nl)
-	var rr runResult
+	rr.WithTS = withTS
+	tsAlive := withTS
+	defer func() {
+		if rr.Fail == "" && tsAlive {
+			rr.Fail = usable(ts, nl)
+		}
+	}()
 	var last *stepRes
 	for i := 0; ; i++ {
 		var leaked []int
 		for l := 0; l < nl; l++ {
-			if plain.roots[l] != nil && ts.roots[l] != nil && ref.roots[l] != nil {
+			if plain.roots[l] != nil && (!withTS || ts.roots[l] != nil) && ref.roots[l] != nil {
 				leaked = append(leaked, -(l + 1))
 			}
 		}
@@ -369,26 +611,34 @@ func lockstep(nl int, next chooser) runResult {
 		if !ok {
 			return rr
 		}
-		rp, rt, rc := plain.step(o), ts.step(o), ref.step(o)
-		rec := stepRec{Op: o, Res: rp, Hang: rt.Kind == "hang"}
+		rp := plain.step(o)
+		rt := rp
+		if withTS {
+			rt = ts.step(o)
+		}
+		rc := ref.step(o)
+		rec := stepRec{Op: o, Res: rp, Hang: withTS && rt.Kind == "hang"}
+		if rt.Kind == "hang" || rt.Kind == "hang-in-observation" {
+			tsAlive = false // already reported; a goroutine still sits in the list
+		}
 		for _, e := range [][]string{rp.Errs, rt.Errs, rc.Errs} {
 			if len(e) > 0 && rr.Fail == "" {
 				rr.Fail = "harness-visible inconsistency: " + strings.Join(e, "; ")
 			}
 		}
 		if d := sameRes(rp, rc); d != "" && rr.Fail == "" {
-			rr.Fail = fmt.Sprintf("step %d %s: ds.NewList(true) vs container/list: %s", i, o.coq(), d)
+			rr.Fail = fmt.Sprintf("step %d %s: ds.NewList(true) vs container/list: %s", i, o.callCoq(), d)
 		}
 		if d := sameRes(rt, rc); d != "" && rr.Fail == "" {
-			rr.Fail = fmt.Sprintf("step %d %s: ds.NewList() vs container/list: %s", i, o.coq(), d)
+			rr.Fail = fmt.Sprintf("step %d %s: ds.NewList() vs container/list: %s", i, o.callCoq(), d)
 		}
 		switch {
-		case rp.Kind == "undiscoverable" || rp.Kind == "cyclic":
+		case rp.Kind == "undiscoverable" || rp.Kind == "cyclic" || rp.Kind == "ambiguous":
 			rr.End = rp.Kind // not representable as a case: stop before this step
 			return rr
 		case rp.Kind != "ok" && rp.Kind != "panic":
 			if rr.Fail == "" {
-				rr.Fail = fmt.Sprintf("step %d %s: ds.NewList(true): %s", i, o.coq(), rp.Kind)
+				rr.Fail = fmt.Sprintf("step %d %s: ds.NewList(true): %s", i, o.callCoq(), rp.Kind)
 			}
 			rr.End = rp.Kind
 			return rr
@@ -406,13 +656,137 @@ func lockstep(nl int, next chooser) runResult {
 // ---------- generator ----------
 
 type gen struct {
-	r      *vx.Rng
-	nl     int
-	maxLen int
-	zombie bool // may pass handles orphaned by Init and leaked sentinels
-	orph   map[int]bool
-	vnext  int
-	lists  [][]int
+	r         *vx.Rng
+	nl        int
+	maxLen    int
+	zombie    bool // may pass handles orphaned by Init and leaked sentinels
+	reentrant bool // callbacks may call mutating methods of the list being iterated (lock-free flavour only)
+	orph      map[int]bool
+	vnext     int
+	lists     [][]int
+}
+
+// tsSafe: no callback of the history writes the list it is iterating (the thread-safe flavour holds that list's
+// read lock while the callback runs, so such a call can never return there)
+func tsSafe(h []op) bool {
+	for _, o := range h {
+		for _, a := range o.Script {
+			if o.K == "Iter" && a.writes() && a.L == o.L {
+				return false
+			}
+		}
+	}
+	return true
+}
+
+// script generates the callback of one iteration of list o.L: mostly nothing, at one to three visits an abort
+// or a call (on the iterated list itself in re-entrant histories, else on the other list)
+func (g *gen) script(o *op, st *vx.Stats, ref *stepRes, alloc int, leaked []int) (creates int) {
+	n := len(g.lists[o.L])
+	script := make([]cbact, 1+g.r.Intn(n+2))
+	for i := range script {
+		script[i] = cbact{A: "nop"}
+	}
+	relOK := true // the visited element is found through its value: needs distinct values
+	if ref != nil {
+		seen := map[int]bool{}
+		for _, h := range ref.Obs.Hs {
+			if seen[h.Val] {
+				relOK = false
+			}
+			seen[h.Val] = true
+		}
+	}
+	withPushList := g.r.Chance(1, 6)
+	if withPushList {
+		relOK = false // (the copies repeat values)
+	}
+	pickRel := func(l int) (rel, bool) {
+		x := g.r.Intn(100)
+		switch {
+		case relOK && x < 40:
+			return rel{K: "cur"}, true
+		case relOK && x < 65:
+			return rel{K: map[bool]string{false: "nxt", true: "prv"}[o.Rev]}, true // the walk's successor
+		case relOK && x < 80:
+			return rel{K: map[bool]string{false: "prv", true: "nxt"}[o.Rev]}, true
+		}
+		id, cat := g.pick(l, alloc, leaked)
+		if cat == "" {
+			return rel{}, false
+		}
+		return rel{K: "abs", P: id}, true
+	}
+	nact := 1 + g.r.Intn(3)
+	for k := 0; k < nact; k++ {
+		j := g.r.Intn(len(script))
+		tl := o.L
+		if !g.reentrant || g.r.Chance(1, 5) {
+			tl = (o.L + 1 + g.r.Intn(g.nl-1)) % g.nl
+		}
+		a := cbact{L: tl}
+		x := g.r.Intn(100)
+		if !g.reentrant {
+			x = g.r.Intn(160) // more aborts where the lock discipline is what is exercised
+		}
+		ok := true
+		switch {
+		case x < 12:
+			a.A, a.B = "push", g.r.Bool()
+			g.vnext++
+			a.V = g.vnext
+			creates++
+		case x < 30:
+			a.A = "remove"
+			a.R, ok = pickRel(tl)
+		case x < 48:
+			a.A, a.B = "insert", g.r.Bool()
+			g.vnext++
+			a.V = g.vnext
+			creates++
+			a.R, ok = pickRel(tl)
+		case x < 60:
+			a.A, a.B = "moveend", g.r.Bool()
+			a.R, ok = pickRel(tl)
+		case x < 76:
+			a.A, a.B = "move", g.r.Bool()
+			var ok2 bool
+			a.R, ok = pickRel(tl)
+			a.M, ok2 = pickRel(tl)
+			ok = ok && ok2
+		case x < 84 && withPushList:
+			a.A, a.B, a.O = "pushlist", g.r.Bool(), g.r.Intn(g.nl)
+			creates += len(g.lists[a.O]) + creates
+		case x < 87 && g.zombie:
+			a.A = "init"
+			for _, id := range g.lists[tl] {
+				if id >= 0 {
+					g.orph[id] = true
+				}
+			}
+		case x < 91:
+			a = cbact{A: "panic"} // (ends the history: every world panics; the lists must stay usable)
+		default:
+			a = cbact{A: "abort"}
+		}
+		if !ok {
+			continue
+		}
+		script[j] = a
+	}
+	for _, a := range script {
+		st.Count("callback:" + a.A)
+		if a.writes() && a.L == o.L {
+			st.Count("callback:writes-the-iterated-list")
+		}
+		for _, r := range []rel{a.R, a.M} {
+			if r.K != "" {
+				st.Count("callback-handle:" + r.K)
+			}
+		}
+	}
+	o.Script = script
+	return creates
 }
 
 func (g *gen) pick(l int, alloc int, leaked []int) (int, string) {
@@ -473,7 +847,7 @@ var kinds = []struct {
 	k string
 	w int
 }{{"PushFront", 10}, {"PushBack", 12}, {"Remove", 11}, {"InsertBefore", 9}, {"InsertAfter", 9}, {"MoveToFront", 7},
-	{"MoveToBack", 7}, {"MoveBefore", 11}, {"MoveAfter", 11}, {"PushBackList", 4}, {"PushFrontList", 4}, {"Init", 2}}
+	{"MoveToBack", 7}, {"MoveBefore", 11}, {"MoveAfter", 11}, {"PushBackList", 4}, {"PushFrontList", 4}, {"Init", 2}, {"Iter", 14}}
 
 func (g *gen) choose(st *vx.Stats) chooser {
 	return func(step int, ref *stepRes, alloc int, leaked []int) (op, bool) {
@@ -547,6 +921,9 @@ func (g *gen) choose(st *vx.Stats) chooser {
 						g.orph[id] = true
 					}
 				}
+			case "Iter":
+				o.Rev, o.FE = g.r.Chance(2, 5), g.r.Chance(2, 3)
+				creates = g.script(&o, st, ref, alloc, leaked)
 			}
 			if creates > 0 && alloc+creates > 16 {
 				continue
@@ -575,7 +952,29 @@ func directed() [][]op {
 		{pb(0, 1), pb(0, 2), {K: "Remove", L: 0, E: 0}, {K: "Remove", L: 0, E: 0}, {K: "InsertAfter", L: 0, V: 3, M: 0}, {K: "MoveToBack", L: 0, E: 0}, {K: "MoveBefore", L: 0, E: 1, M: 0}},            // removed handles
 		cat(abc, op{K: "MoveToFront", L: 0, E: 2}, op{K: "MoveToFront", L: 0, E: 2}, op{K: "MoveToBack", L: 0, E: 2}, op{K: "MoveToBack", L: 0, E: 2}, op{K: "Remove", L: 0, E: 0}, op{K: "Remove", L: 0, E: 1}, op{K: "Remove", L: 0, E: 2}),
 		{pb(0, 1), {K: "Init", L: 0}, {K: "Remove", L: 0, E: 0}, {K: "PushFront", L: 0, V: 2}, {K: "PushBackList", L: 1, O: 0}}, // orphan removed: Len = -1 then 0
+		// iteration with callbacks that call back into the list (the walk must read the successor after the callback)
+		cat(abc, iter(0, false, false, nop, nop, cbact{A: "push", B: true, L: 0, V: 4}), iter(0, true, false, cbact{A: "push", B: false, L: 0, V: 5})),
+		cat(abc, pb(0, 4), iter(0, false, false, nop, cbact{A: "remove", L: 0, R: cur}), iter(0, false, true, nop, cbact{A: "remove", L: 0, R: nxt}, nop)),
+		cat(abc, pb(0, 4), iter(0, true, true, nop, cbact{A: "remove", L: 0, R: prv}, cbact{A: "insert", L: 0, V: 9, R: cur}), iter(0, false, true, cbact{A: "insert", B: true, L: 0, V: 7, R: cur}, cbact{A: "moveend", B: true, L: 0, R: cur}, nop, abort)),
+		cat(abc, iter(0, false, false, cbact{A: "moveend", B: true, L: 0, R: cur}, cbact{A: "move", B: true, L: 0, R: cur, M: nxt}, cbact{A: "move", L: 0, R: nxt, M: cur}), iter(0, true, false, cbact{A: "moveend", L: 0, R: cur}, nop, cbact{A: "pushlist", B: true, L: 0, O: 0})),
+		// an aborted iteration must stop, hand the error back and leave the list usable (all three worlds)
+		cat(abc, iter(0, false, true, nop, abort), pb(0, 5), iter(0, true, true, abort), op{K: "MoveToBack", L: 0, E: 0}, op{K: "Remove", L: 0, E: 1}, iter(0, false, false, abort, nop)),
+		cat(abc, iter(0, false, true, nop, cbact{A: "panic"})), cat(abc, iter(0, true, true, cbact{A: "panic"})),
+		cat(abc, iter(0, false, false, nop, nop, cbact{A: "panic"})), cat(abc, iter(0, true, false, nop, cbact{A: "panic"})),
+		cat(abc, pb(1, 4), iter(0, false, true, cbact{A: "push", B: true, L: 1, V: 5}, cbact{A: "remove", L: 1, R: rel{K: "abs", P: 3}}, abort), iter(1, true, true, cbact{A: "pushlist", L: 0, O: 1}, abort), op{K: "Init", L: 0}, op{K: "Init", L: 1}),
 	}
+}
+
+var (
+	nop   = cbact{A: "nop"}
+	abort = cbact{A: "abort"}
+	cur   = rel{K: "cur"}
+	nxt   = rel{K: "nxt"}
+	prv   = rel{K: "prv"}
+)
+
+func iter(l int, rev, fe bool, script ...cbact) op {
+	return op{K: "Iter", L: l, Rev: rev, FE: fe, Script: script}
 }
 
 func scripted(h []op) chooser {
@@ -644,7 +1043,7 @@ func emit(cf *vx.CasesFile, st *vx.Stats, nl int, rr runResult, tag string, zomb
 	maxLive, handleOps := 0, 0
 	for i, s := range rr.Steps {
 		ops[i] = s.Op
-		keyParts[i] = s.Op.coq()
+		keyParts[i] = s.Op.callCoq()
 		st.Count("op:" + s.Op.K)
 		for _, l := range s.Res.Obs.Lists {
 			if len(l.Ids) > maxLive {
@@ -654,7 +1053,17 @@ func emit(cf *vx.CasesFile, st *vx.Stats, nl int, rr runResult, tag string, zomb
 		switch s.Op.K {
 		case "Remove", "InsertBefore", "InsertAfter", "MoveToFront", "MoveToBack", "MoveBefore", "MoveAfter":
 			handleOps++
+		case "Iter":
+			st.Count(map[bool]string{true: "iter:ForEach", false: "iter:Range"}[s.Op.FE] + map[bool]string{true: "Reverse", false: ""}[s.Op.Rev])
+			if strings.HasSuffix(s.Res.Out, "true") {
+				st.Count("iter:aborted")
+			}
 		}
+	}
+	if rr.WithTS {
+		st.Count("history:three-worlds")
+	} else {
+		st.Count("history:re-entrant-callbacks(no-thread-safe-world)")
 	}
 	if rr.End != "" {
 		st.Count("ended-early:" + rr.End)
@@ -664,7 +1073,7 @@ func emit(cf *vx.CasesFile, st *vx.Stats, nl int, rr runResult, tag string, zomb
 	} else {
 		st.Count("history:zombie-free")
 	}
-	cf.Add(fmt.Sprintf("mkc %d%%nat %s %s", nl, vx.ListOf(ops, op.coq), vx.ListOf(rr.Steps, func(s stepRec) string { return stepCoq(s, full) })))
+	cf.Add(fmt.Sprintf("mkc %d%%nat %s %s %s", nl, vx.Bool(rr.WithTS), vx.ListOf(ops, op.callCoq), vx.ListOf(rr.Steps, func(s stepRec) string { return stepCoq(s, full) })))
 	if full {
 		st.Count("observations:full")
 	} else {
@@ -675,8 +1084,11 @@ func emit(cf *vx.CasesFile, st *vx.Stats, nl int, rr runResult, tag string, zomb
 	st.Sample(map[string]any{"history": keyParts}, 3)
 	if rr.Fail != "" {
 		st.Fail(map[string]any{"sig": "", "lists": nl, "history": ops, "why": rr.Fail})
+		fails++
 	}
 }
+
+var fails int
 
 func main() {
 	if len(os.Args) > 1 && os.Args[1] == "probe" {
@@ -696,7 +1108,7 @@ func main() {
 	replay := fs.String("replay", "", "JSON file {lists, history} to replay instead of generating")
 	_ = fs.Parse(os.Args[2:])
 	r := vx.NewRng(*seed)
-	st := vx.NewStats("random operation histories over 2 lists (all 12 mutating methods; handle arguments live / other list / removed / orphaned by Init / leaked sentinel; values distinct) run in lockstep on ds.NewList(true), ds.NewList() and container/list; distinct = distinct histories; non-trivial = some list held >= 2 elements and at least one handle-relative call")
+	st := vx.NewStats("random operation histories over 2 lists (all 12 mutating methods and the four iteration methods ForEach/ForEachReverse/Range/RangeReverse with scripted callbacks: abort with an error at visit j, or one call at visit j on the visited element / its Next / its Prev / a fixed handle; in 2 of 5 histories the callbacks write the iterated list itself and only the lock-free flavour runs; handle arguments live / other list / removed / orphaned by Init / leaked sentinel; values distinct) run in lockstep on ds.NewList(true), ds.NewList() and container/list (iteration = the loop for e := l.Front(); e != nil; e = e.Next()); every list of the thread-safe world must still be usable after the history; distinct = distinct histories; non-trivial = some list held >= 2 elements and at least one handle-relative call")
 	cf := &vx.CasesFile{
 		Header: "From Coq Require Import ZArith List.\nFrom Verif.C10_List Require Import Model Corr.\nImport ListNotations.\nOpen Scope Z_scope.\n",
 		Type:   "case",
@@ -724,16 +1136,17 @@ func main() {
 		if obj.Lists == 0 {
 			obj.Lists = 2
 		}
-		rr := lockstep(obj.Lists, scripted(obj.History))
+		rr := lockstep(obj.Lists, scripted(obj.History), tsSafe(obj.History))
 		emit(cf, st, obj.Lists, rr, "replay", true, true)
 		fmt.Printf("replayed %d steps; end=%q; oracle: %q\n", len(rr.Steps), rr.End, rr.Fail)
 	} else {
 		for _, h := range directed() {
-			emit(cf, st, 2, lockstep(2, scripted(h)), "directed", true, true)
+			emit(cf, st, 2, lockstep(2, scripted(h), tsSafe(h)), "directed", true, true)
 		}
-		for cf.Len() < *n {
+		for cf.Len() < *n && fails < 8 { // (eight failing histories are evidence enough; every hang costs seconds)
 			g := &gen{r: r.Fork(), nl: 2, maxLen: 4 + r.Intn(*maxLen-3), zombie: r.Chance(1, 4), orph: map[int]bool{}}
-			emit(cf, st, 2, lockstep(2, g.choose(st)), "random", g.zombie, *nfull > 0)
+			g.reentrant = r.Chance(2, 5)
+			emit(cf, st, 2, lockstep(2, g.choose(st), !g.reentrant), "random", g.zombie, *nfull > 0)
 			*nfull--
 		}
 	}
